@@ -954,6 +954,9 @@ class Interp(Engine):
             return z3.Contains(self.as_seq(container, node), z3.Unit(self.to_term(item, node)))
         if k == "str":
             return z3.Contains(self.as_str(container), self.as_str(item, node))
+        if isinstance(container, SV) and k in self.reg.shapes and self.reg.shape_method(k, "__contains__") is not None and not self.spec_mode:
+            r = self.call_value(self.get_attr(container, "__contains__", node), [item], {}, node)
+            return self.truthy(r, node)
         self.unsupported(node, "membership in %r" % (container,))
 
     # ------------------------------------------------------------ subscripts
